@@ -110,6 +110,15 @@ def nbits(n, with_unknown, with_self):
     return n * per
 
 
+def set_ignores(mgr, names):
+    """Configure the manager's ignore list through its public API."""
+    ign = mgr.ignores()
+    if hasattr(ign, "clear"):
+        ign.clear()
+    for nm in names:
+        mgr.add_ignore_module(nm)
+
+
 def enum_batch(arg):
     """Worker: enumerate graphs bits in [lo, hi)."""
     part = Part()
@@ -117,6 +126,7 @@ def enum_batch(arg):
     mgr = mm.ModuleManager.get()
     n, lo, hi = arg["n"], arg["lo"], arg["hi"]
     wu, ws = arg["unknown"], arg["self"]
+    set_ignores(mgr, arg.get("ignore", []))
     cyc = acyc = 0
     for bits in range(lo, hi):
         g = _graph_from_bits(n, bits, wu, ws)
@@ -124,8 +134,10 @@ def enum_batch(arg):
             res = mgr.sort_modules(g)
         except PostBroken:
             part.violation({"kind": "sort_postcondition",
-                            "what": _STATE.get("why", "?"),
-                            "graph": {k: sorted(v) for k, v in g.items()}})
+                            "what": _STATE.get("why", "?") + " (ignore list "
+                            "%s)" % arg.get("ignore", []),
+                            "graph": {k: sorted(v) for k, v in g.items()},
+                            "ignore": arg.get("ignore", [])})
             continue
         except Exception as err:   # the sort must always yield a list
             part.violation({"kind": "sort_raised",
@@ -156,6 +168,8 @@ def random_batch(arg):
     rnd = random.Random(arg["seed"])
     for _ in range(arg["count"]):
         n = rnd.randint(5, 9)
+        set_ignores(mgr, [x for x in NAMES[:n] + [UNKNOWN]
+                          if rnd.random() < 0.12])
         names = NAMES[:n]
         rnd.shuffle(names)
         dens = rnd.choice([0.05, 0.15, 0.3, 0.6])
@@ -209,6 +223,26 @@ def main(ctx):
             jobs.append(("enum_batch", {"n": n, "lo": lo,
                                         "hi": min(total, lo + chunk),
                                         "unknown": wu, "self": ws}))
+    # the same spaces (n <= 3 exhaustively) with every ignore-list subset
+    # of {listed names, unknown name}; n = 4 with three ignore lists
+    import itertools
+    for n in (1, 2, 3):
+        universe = NAMES[:n] + [UNKNOWN]
+        total = 1 << nbits(n, True, True)
+        for r in range(1, len(universe) + 1):
+            for ign in itertools.combinations(universe, r):
+                jobs.append(("enum_batch", {"n": n, "lo": 0, "hi": total,
+                                            "unknown": True, "self": True,
+                                            "ignore": list(ign)}))
+    for ign in (["a"], [UNKNOWN], ["b", UNKNOWN]):
+        total = 1 << nbits(4, True, True)
+        step = 16 if ctx.quick else 1
+        chunk = max(1, total // 16)
+        for lo in range(0, total, chunk * step):
+            jobs.append(("enum_batch", {"n": 4, "lo": lo,
+                                        "hi": min(total, lo + chunk),
+                                        "unknown": True, "self": True,
+                                        "ignore": ign}))
     nrand = 20 if ctx.quick else 64
     per = 1500 if ctx.quick else 20000
     for i in range(nrand):
@@ -224,6 +258,8 @@ def main(ctx):
             # construction; random maps are counted conservatively as 0.
             ctx.merge(res)
     distinct = sum(v for k, v in ctx.counters.items() if k.startswith("n="))
+    ctx.extra["ignore_lists"] = ("every subset of {listed names, unknown} "
+                                 "for n<=3; three lists for n=4")
     ctx._distinct = set(range(distinct))
     ctx.extra["exhaustive"] = True
     ctx.extra["exhaustive_bound"] = [
